@@ -28,8 +28,10 @@ PROPS["C01"] = {
 }
 
 PROPS["C07"] = {
-    "imports": ["NsyncVerif.Props.C07"],
-    "theorems": ["Once." + t for t in ["C07_at_most_once", "C07_runner_is_caller", "C07_no_early_return", "C07_exactly_once",
+    "imports": ["NsyncVerif.Props.C07", "NsyncVerif.Props.C07Fair"],
+    "theorems": ["Once." + t for t in ["C07_fair_termination", "C07_fair_exactly_once", "C07_fair_lock_free_again", "C07_fair_moves", "C07_fair_done",
+                 "C07_fair_needs_weak_fair", "C07_fair_needs_init_returns", "C07_fair_needs_lock_fair", "fair_hyps"]] +
+                ["Once." + t for t in ["C07_at_most_once", "C07_runner_is_caller", "C07_no_early_return", "C07_exactly_once",
                  "C07_return_only_when_done", "C07_word_meaning", "C07_winner_unique", "C07_word_monotone", "C07_done_is_wait_free",
                  "C07_done_only_path", "C07_no_stuck_state", "C07_progress", "C07_shared_slot_independent", "C07_all_hashings",
                  "C07_lock_discipline", "C07_spin_never_locks"]],
@@ -38,13 +40,16 @@ PROPS["C07"] = {
     "plan": {"quick": [("once", 150, 8), ("once_nested", 80, 8)], "thorough": [("once", 1500, 16), ("once_nested", 800, 16)]},
     "family_layers": {"once_nested": ["mux"]},
     "level_text": "Kernel-checked theorems over the Once model (once.c statement by statement, one step per atomic operation / lock operation / callback boundary; any number of threads and once objects, arbitrary slot hashing): the function is entered at most once, only by the CAS winner; no call returns before the run completed; done calls are wait-free; no stuck state; deadlock freedom (C07_progress). Tied to the code by lockstep replay of harness executions of the real once.c through the Once acceptor (and the embedded mutex traffic through MuX).",
-    "level_note": "The slot mutex/cv is abstract in this layer (single-step lock/unlock; justified by C01, whose acceptor replays the same logs). Fair termination from C07_progress/C07_no_stuck_state is a paper argument. Model=code on the executions replayed.",
+    "level_note": "The slot mutex/cv is abstract in this layer (single-step lock/unlock; justified by C01, whose acceptor replays the same logs). FAIR TERMINATION is a theorem (Props/C07Fair: C07_fair_termination, C07_fair_exactly_once — in every infinite execution of the Once model that is weakly fair, in which the acquisition of the slot mutex is strongly fair (LockFair: a thread that waits for a lock that is free again and again gets it) and every started initializer returns, every nsync_run_once* call returns, the initializer having run exactly once and ended); each hypothesis is shown necessary by an explicit fair execution — in particular weak fairness of the lock acquisition plus finitely many arrivals is NOT enough, because every timed-out cv wait of a loser (once.c:87-95) is a fresh acquisition of once_mu that can barge past the winner's second lock (C07_fair_needs_lock_fair): LockFair is the starvation-freedom of nsync_mu that C14's MU_LONG_WAIT mechanism is there to provide. Model=code on the executions replayed.",
     "trusted_extra": ["slot mutex behaves as a lock (C01/C02)"],
 }
 
 PROPS["C12"] = {
-    "imports": ["NsyncVerif.Props.C12"],
-    "theorems": ["NsyncVerif.Futex." + t for t in ["C12_conservation", "C12_takes_le_posts", "C12_success_le_posts", "C12_word_fits",
+    "imports": ["NsyncVerif.Props.C12", "NsyncVerif.Props.C12Fair"],
+    "theorems": ["NsyncVerif.Futex." + t for t in ["C12_fair_termination", "C12_fair_P_returns", "C12_fair_PD_returns", "C12_fair_V_returns", "C12_fair_post_arrives",
+                 "C12_fair_V_returns_finite_calls", "C12_thread_enabled", "C12_kernel_due_enabled", "C12_fair_needs_kernel", "C12_fair_needs_kernel_timeout",
+                 "C12_fair_needs_finite_spurious", "C12_fair_needs_bounded_posts", "C12_fair_needs_weak", "C12_fair_needs_post", "C12_fair_nonvacuous"]] +
+                ["NsyncVerif.Futex." + t for t in ["C12_conservation", "C12_takes_le_posts", "C12_success_le_posts", "C12_word_fits",
                  "C12_success_needs_post", "C12_no_lost_post", "C12_post_enables", "C12_post_kept_on_timeout", "C12_future_wait_returns",
                  "C12_future_timed_wait_returns", "C12_wait_rechecks", "C12_sleep_only_if_zero", "C12_timeout_real",
                  "C12_no_deadline_never_times_out", "C12_faults_harmless", "C12_premature_timeout_rechecks", "C12_refines", "C12_refines_run"]],
@@ -54,7 +59,7 @@ PROPS["C12"] = {
     "oracles": {"early-timeout", "stuck", "panic", "crash", "steplimit"},
     "plan": {"quick": [("futex", 200, 10)], "thorough": [("futex", 2000, 24)]},
     "level_text": "Kernel-checked theorems over the Futex model (nsync_semaphore_futex.c statement by statement over a modelled kernel futex: atomic compare-and-sleep, wake-at-most-one, spurious 0 / EINTR / EAGAIN / premature ETIMEDOUT at any point; one waiter, any number of posters): word = posts - takes, success needs a post, no lost post, a post enables the waiter within 5 own steps, ETIMEDOUT only at/after the deadline, refinement to a counting semaphore. Tied to the code by lockstep replay: the real nsync_semaphore_futex.c runs under the harness with syscall() redirected to the modelled futex with fault injection.",
-    "level_note": "Kernel futex contract is an assumption (stated in Model/Futex.lean). Single waiter per semaphore (nsync's usage). 'Eventually returns' is proved as bounded solo progress (C12_post_enables) + no-lost-post invariant; the fairness step is informal. Pre-epoch deadlines are C15's subject.",
+    "level_note": "Kernel futex contract is an assumption (stated in Model/Futex.lean). Single waiter per semaphore (nsync's usage). 'Eventually returns' is now a theorem about all fair infinite executions of the model (Props/C12Fair: C12_fair_termination — a P for which a post is pending returns, spurious wake-ups / EINTRs / premature timeouts and new arrivals going on for ever notwithstanding; a P with deadline returns once the clock passes the deadline provided spurious wake-ups are finite; V returns when posts are bounded), under weak fairness of the threads and KernelFair (a sleeper that was the target of a FUTEX_WAKE, or whose timeout has expired, eventually returns from the system call); each hypothesis is shown necessary by an explicit execution (V's CAS loop is lock-free, not wait-free: C12_fair_needs_bounded_posts). Pre-epoch deadlines are C15's subject.",
     "trusted_extra": ["futex(2) contract: FUTEX_WAIT compares and sleeps atomically; FUTEX_WAKE(1) wakes at most one sleeper of that word"],
 }
 
